@@ -27,7 +27,7 @@ pub mod verif {
 }
 
 use include_logic::FileStack;
-use program_structure::ast::{Version, AST};
+use program_structure::ast::{Expression, Version, AST};
 use program_structure::report::{Report, ReportCollection};
 use program_structure::file_definition::{FileID, FileLibrary};
 use program_structure::program_archive::ProgramArchive;
@@ -153,7 +153,9 @@ pub fn parse_files(
                 Ok(program_archive) => ParseResult::Program(Box::new(program_archive), reports),
                 Err((file_library, mut errors)) => {
                     reports.append(&mut errors);
-                    let template_library = TemplateLibrary::new(definitions, file_library);
+                    // The main component is still looked at.
+                    let template_library = TemplateLibrary::new(definitions, file_library)
+                        .with_main_component(*main_id, &main_component.1);
                     ParseResult::Library(Box::new(template_library), reports)
                 }
             }
@@ -176,28 +178,7 @@ pub fn parse_files(
     // TODO: This could be moved to the lifting phase.
     match &mut result {
         ParseResult::Program(program_archive, reports) => {
-            // The main component is not desugared, and it is not analyzed if it contains an
-            // anonymous component or a tuple (as the instantiation or in one of the arguments).
-            if program_archive.main_expression().contains_anonymous_component(None) {
-                reports.push(
-                    errors::AnonymousComponentError::new(
-                        Some(program_archive.main_expression().meta()),
-                        "The main component cannot contain an anonymous call.",
-                        Some("Main component defined here."),
-                    )
-                    .into_report(),
-                );
-            }
-            if program_archive.main_expression().contains_tuple(None) {
-                reports.push(
-                    errors::TupleError::new(
-                        Some(program_archive.main_expression().meta()),
-                        "The main component cannot contain a tuple.",
-                        Some("Main component defined here."),
-                    )
-                    .into_report(),
-                );
-            }
+            check_main_component(program_archive.main_expression(), reports);
             let (new_templates, new_functions) = syntax_sugar_remover::remove_syntactic_sugar(
                 &program_archive.templates,
                 &program_archive.functions,
@@ -208,6 +189,9 @@ pub fn parse_files(
             program_archive.functions = new_functions;
         }
         ParseResult::Library(template_library, reports) => {
+            if let Some((_, main_component)) = &template_library.main_component {
+                check_main_component(main_component, reports);
+            }
             let (new_templates, new_functions) = syntax_sugar_remover::remove_syntactic_sugar(
                 &template_library.templates,
                 &template_library.functions,
@@ -268,6 +252,31 @@ fn parse_source(
         }
     }
     Ok((file_id, program, reports))
+}
+
+/// The main component is not desugared, and it is not analyzed if it contains an anonymous
+/// component or a tuple (as the instantiation or in one of the arguments).
+fn check_main_component(main_component: &Expression, reports: &mut ReportCollection) {
+    if main_component.contains_anonymous_component(None) {
+        reports.push(
+            errors::AnonymousComponentError::new(
+                Some(main_component.meta()),
+                "The main component cannot contain an anonymous call.",
+                Some("Main component defined here."),
+            )
+            .into_report(),
+        );
+    }
+    if main_component.contains_tuple(None) {
+        reports.push(
+            errors::TupleError::new(
+                Some(main_component.meta()),
+                "The main component cannot contain a tuple.",
+                Some("Main component defined here."),
+            )
+            .into_report(),
+        );
+    }
 }
 
 /// Reports the definitions whose name is already used by an earlier definition (of any of the
